@@ -1,4 +1,5 @@
 import Tickit.Proof.RBSpec
+import Tickit.Proof.RBUtf8
 /-
   C03 — render-buffer cells follow last-writer-wins under clip, mask and translation.
 
@@ -365,6 +366,68 @@ theorem save_goto_restore_cursor :
 
 /-- Non-vacuity: a balanced program with a nested pair, cursor moved and unset in between. -/
 example : Balanced [.goto 1 1, .save, .ungoto, .translate 1 1, .restore, .mask ⟨0, 0, 1, 1⟩, .eraseAt 0 0 3] := rfl
+
+/-! ### the text widths are C07's -/
+
+/-- The width function the render-buffer model uses is the verified one of C07 (`Width.wcwidth`), hence equal
+    to the search-free reading of the tables (`Props.C07.wcwidth_eq_spec`). -/
+theorem width_is_c07 (cp : Nat) : RB.Utf8.wcwidth cp = Width.wcwidth cp ∧ RB.Utf8.wcwidth cp = Width.wcwidthSpec cp :=
+  ⟨RB.Utf8.wcwidth_eq cp, (RB.Utf8.wcwidth_eq cp).trans (Props.C07.wcwidth_eq_spec cp)⟩
+
+/-- **The columns of `text_cellwise` and `cursor_advances_text` are C07's columns.**  The string can be scanned
+    into characters `cs` in the sense of C07 (`Props.C07.Scans`; by `Props.C07.scans_sound` each `c ∈ cs` is what
+    the decoder finds at its offset, with `c.w = wcwidth c.cp ≥ 0`); the render buffer accepts the text exactly if
+    that scan reaches the end of the string, and then `n` in `Utf8.stringColumns s = some n` is the sum of the
+    widths of its characters. -/
+theorem text_columns_are_c07 (s : List UInt8) :
+    ∃ cs t, Props.C07.Scans (RB.Utf8.memOf s) (s.length + 1) (some s.length) Tickit.Utf8.Pos.zero cs t ∧
+      RB.Utf8.stringColumns s = (if t = .eof then some ((cs.map (·.w)).sum) else none) :=
+  RB.Utf8.stringColumns_c07 s
+
+/-! ### the public text query -/
+
+/-- **`get_cell_text` answers from the abstract content.**  On a well-formed buffer
+    `tickit_renderbuffer_get_cell_text(rb, l, c, buffer, len)` returns `-1` exactly for cells outside the clipping
+    region (after translation), and otherwise what `contentText` says about the abstract content of the cell
+    `(l + xlLine, c + xlCol)` — independent of how the runs around it were split, shortened or re-pointed. -/
+theorem get_cell_text_spec (rb : RB) (wf : WF rb) (l c : Int) (len : Nat) :
+    getCellText rb l c len =
+      if absClipRect rb.clip (l + rb.xlLine) (c + rb.xlCol) = true
+      then contentText (absContent rb (l + rb.xlLine) (c + rb.xlCol)) len else (-1, []) :=
+  getCellText_abs wf l c len
+
+/-- Skipped and erased cells have no text; a CHAR cell yields the UTF-8 encoding of its code point and a LINE cell
+    that of its glyph (`-1` if the buffer is too short). -/
+theorem cell_text_simple (p : Pen) (m : Nat) (cp : Int) (len : Nat) :
+    contentText .skip len = (0, []) ∧ contentText (.erase p) len = (0, []) ∧
+    contentText (.char p cp) len =
+      (if len < (RB.Utf8.put cp.toNat).length then ((-1 : Int), []) else (((RB.Utf8.put cp.toNat).length : Int), RB.Utf8.put cp.toNat)) ∧
+    contentText (.line p m) len =
+      (if len < (RB.Utf8.put (Gen.RBWidth.linemaskToChar.getD m 0)).length then ((-1 : Int), [])
+       else (((RB.Utf8.put (Gen.RBWidth.linemaskToChar.getD m 0)).length : Int), RB.Utf8.put (Gen.RBWidth.linemaskToChar.getD m 0))) :=
+  ⟨rfl, rfl, rfl, rfl⟩
+
+/-- **The text of a text cell is a grapheme of its string, in C07's terms**: for a cell showing column `k` of
+    `s`, with `st` = where C07's specification (`specRun`) stops counting whole graphemes of `s` under the limit
+    "`k` columns" and `en` = one grapheme further, the query returns the bytes `s[st.bytes, en.bytes)`. -/
+theorem cell_text_of_text (p : Pen) (s : List UInt8) (k : Int) (len : Nat) :
+    ∃ cs1 t1 cs2 t2 st en,
+      Props.C07.Scans (RB.Utf8.memOf s) (s.length + 1) none Tickit.Utf8.Pos.zero cs1 t1 ∧
+      st = (Tickit.Utf8.specRun (some ⟨none, -1, -1, k⟩) (Props.C07.graphemes cs1) t1 Tickit.Utf8.Pos.zero).pos ∧
+      Props.C07.Scans (RB.Utf8.memOf s) (s.length + 1) none st cs2 t2 ∧
+      en = (Tickit.Utf8.specRun (some ⟨none, -1, st.graphemes + 1, -1⟩) (Props.C07.graphemes cs2) t2 st).pos ∧
+      contentText (.text p s k) len =
+        (if (len : Int) < (en.bytes : Int) - st.bytes then (-1, [])
+         else ((en.bytes : Int) - st.bytes, (s.drop st.bytes).take (en.bytes - st.bytes))) :=
+  cellText_text_c07 p s k len
+
+/-- Non-vacuity: `a`, combining acute, fullwidth `A`, `b` drawn at column 0; the cell at column 0 yields
+    `a` + the combining mark (3 bytes), column 1 the wide character, column 3 `b`; a cell outside the clip `-1`. -/
+example :
+    let rb := RB.run (RB.new 1 6 0 0) [.textAt 0 0 [0x61, 0xcc, 0x81, 0xef, 0xbc, 0xa1, 0x62]]
+    getCellText rb 0 0 255 = (3, [0x61, 0xcc, 0x81]) ∧ getCellText rb 0 1 255 = (3, [0xef, 0xbc, 0xa1]) ∧
+    getCellText rb 0 3 255 = (1, [0x62]) ∧ getCellText rb 0 9 255 = (-1, []) := by
+  decide +kernel
 
 /-! ### facts regenerated from the C source on every run (`bin/extract.d/25_rbwidth.py` → `Gen/RBWidth.lean`) -/
 
